@@ -138,6 +138,11 @@ def rescale(repo, res, a: UfuncAnchors):
         if resc and not any(ev[0] == "stmt" and ev[1] is resc[0] for ev in p):
             bad = p
     res.check(n > 0 and bad is None, "rescale-on-all-paths", fn.where(a.differ_if), "a path through the differing-units block reaches evaluation without rescaling the right operand", found=[f"{t}={tr}" for t, tr, _ in path_facts(bad)] if bad else "", rid=r2)
+    # ... and that block is entered whenever the units differ by value (not merely by spelling)
+    from rules.ufunc import differ_entry
+
+    ok_e, bad_e = differ_entry(a)
+    res.check(ok_e, "rescale-entry", fn.where(a.differ_if), "the rescaling block is skipped for some operands whose units differ: the entry test has a conjunct that can be false although scale or dimension differ (e.g. the same symbol in two registries, or spellings compared instead of values)", "only comparisons of the two unit objects (is not / !=)", bad_e, rid=r2)
     # evaluation call
     call = a.eval_stmt.value
     args = [norm(x) for x in call.args]
@@ -370,4 +375,6 @@ MUTANTS = [
     Mutant("power-units-unchecked", ARR, "unyt_array.__array_ufunc__", "                elif inp0.shape == inp1.shape:\n                    if isinstance(u1, unyt_array) and not u1.units.is_dimensionless:\n                        raise UnitOperationError(ufunc, u0, getattr(u1, \"units\", None))\n", "                elif inp0.shape == inp1.shape:\n", ("C04-R6",)),
     Mutant("twin-reg-order", ARR, None, "        sqrt: _sqrt_unit,\n        cbrt: _cbrt_unit,\n", "        cbrt: _cbrt_unit,\n        sqrt: _sqrt_unit,\n", (), benign=True),
     Mutant("twin-sqrt-rational", ARR, "_sqrt_unit", "unit**0.5", "unit ** (1 / 2)", (), benign=True),
+    Mutant("rescale-entry-by-spelling", ARR, "unyt_array.__array_ufunc__", "if u0 is not u1 and u0 != u1:", "if u0 is not u1 and u0.expr != u1.expr:", ("C04-R2",)),
+    Mutant("entry-without-identity-shortcut", ARR, "unyt_array.__array_ufunc__", "if u0 is not u1 and u0 != u1:", "if u0 != u1:", (), benign=True),
 ]
